@@ -101,7 +101,7 @@ def run(ctx, rep):
                          "an order missing from this view is invisible to its accessor"):
             continue
         n, k, v, how = w
-        uncond = cfg.all_paths_pass(cfg.entry, cfg.exit, [n.id]) and not cfg.guards(n.id)
+        uncond = cfg.all_paths_pass(cfg.entry, cfg.exit, [n.id]) and cfg.unconditional(n.id)
         rep.check(uncond, "R1", "Blotter.__setitem__ writes %s unconditionally" % cname, setitem, n.ast)
         want_k = wkey.replace("order.", oparam + ".").replace("customer_order_ref", kparam) if wkey else None
         if wkey is not None:
@@ -180,6 +180,73 @@ def run(ctx, rep):
             rep.check(allowed, "R2", "%s() on %s in %s" % (mut, cname, key(f, c)), f, c,
                       "only __setitem__ (append) and complete_order (live list removal) may change the views")
     rep.floor("R2", "writes to blotter containers", n_w, 18)
+    # the accessors hand out the index lists themselves (no copy when no filter is given): a caller that
+    # mutates what it got changes the view of every later caller
+    from sa.kinds import MUTATORS
+    accessors = {"strategy_orders", "strategy_selection_orders", "client_orders", "client_strategy_orders"}
+    n_alias = 0
+    for f in prog.all_functions():
+        aliases = {}   # local name -> [(assign stmt, source)]
+        for s in walk_nodes(f.node.body, ast.Assign):
+            v = s.value
+            src = None
+            if isinstance(v, ast.Call) and call_name(v) in accessors and isinstance(v.func, ast.Attribute):
+                src = call_name(v) + "()"
+            else:
+                r = v
+                while isinstance(r, ast.Subscript):
+                    r = r.value
+                if isinstance(r, ast.Attribute) and r.attr in conts and (r is not v or r.attr == "_live_orders"):
+                    bt = res.type_of(r.value, f)
+                    if bt is None or bt.name == "Blotter":
+                        src = r.attr
+            if src and len(s.targets) == 1 and isinstance(s.targets[0], ast.Name):
+                aliases.setdefault(s.targets[0].id, []).append((s, src))
+        if not aliases:
+            continue
+        n_alias += len(aliases)
+        cfgf = ctx.cfg(f)
+
+        def live_alias(name, at):
+            """source of an alias definition of `name` that reaches statement `at` (None if every path
+            from it passes a rebinding of the name)"""
+            ms = cfgf.nodes_of(at)
+            if not ms:
+                return None
+            defs = [n for n in cfgf.live_nodes() if any(isinstance(t, ast.Name) and t.id == name
+                    for st in ([n.ast] if isinstance(n.ast, (ast.Assign, ast.AugAssign, ast.For)) else [])
+                    for t, k in store_targets(st))]
+            for st, src in aliases[name]:
+                for d in cfgf.nodes_of(st):
+                    kills = [n.id for n in defs if n.id != d.id and not isinstance(n.ast, ast.AugAssign)]
+                    if ms[0].id in cfgf.reachable(d.id, kills, include_src=False):
+                        return src
+            return None
+
+        stmts = {}
+        for st in walk_nodes(f.node.body, ast.stmt):
+            for c in walk_calls([st]) if not isinstance(st, (ast.If, ast.For, ast.While, ast.With, ast.Try)) else []:
+                stmts.setdefault(id(c), st)
+        for c in walk_calls(f.node.body):
+            if isinstance(c.func, ast.Attribute) and c.func.attr in MUTATORS:
+                r = c.func.value
+                if isinstance(r, ast.Call) and call_name(r) in accessors and isinstance(r.func, ast.Attribute):
+                    rep.violation("R2", "%s() on the list returned by %s() in %s" % (c.func.attr, call_name(r), key(f, c)), f, c,
+                                  "the accessor returns the index list itself")
+                if isinstance(r, ast.Name) and r.id in aliases:
+                    src = live_alias(r.id, stmts.get(id(c))) if id(c) in stmts else aliases[r.id][0][1]
+                    if src:
+                        rep.violation("R2", "%s() on `%s`, an alias of %s, in %s" % (c.func.attr, r.id, src, key(f, c)), f, c,
+                                      "the local is the index list itself, not a copy")
+        for s in walk_nodes(f.node.body, (ast.AugAssign, ast.Delete, ast.Assign)):
+            for t, kind in store_targets(s):
+                base = t
+                while isinstance(base, ast.Subscript):
+                    base = base.value
+                hit = isinstance(base, ast.Name) and base.id in aliases and (isinstance(s, ast.AugAssign) or base is not t)
+                if hit and live_alias(base.id, s):
+                    rep.violation("R2", "in-place change of `%s`, an alias of %s, in %s" % (base.id, aliases[base.id][0][1], key(f, s)), f, s)
+    rep.floor("R2", "locals bound to an index list", n_alias, 4)
     co = prog.own_method("Blotter", "complete_order")
     from sa.kinds import sbody
     body = [utext(s) for s in sbody(co.node.body)]
@@ -377,5 +444,9 @@ def MUTANTS(ctx):
         dict(id="c15-live-orders-no-snapshot", file=_B, func="Blotter.live_orders",
              old="return iter(list(self._live_orders))", new="return iter(self._live_orders)", expect=["R4"],
              why="removal while iterating skips orders"),
+        dict(id="c15-view-mutated-through-accessor", file=_B, func="Blotter.get_exposures",
+             old="        for order in self.strategy_selection_orders(strategy, *lookup[1:]) + (\n            [new_order] if new_order is not None else []\n        ):",
+             new="        orders = self.strategy_selection_orders(strategy, *lookup[1:])\n        if new_order is not None:\n            orders.append(new_order)\n        for order in orders:",
+             expect=["R2"], why="the prospective order is appended to the index list itself"),
     ]
     return out
